@@ -39,6 +39,21 @@ GOOD = {
                 'sections': [{'t': 'PS', 'ascii': 'BD8D1002'.ljust(32)}, {'t': 'EH'}, {'t': 'MT'}]},
     'f_good3': {'eid': 0x50000F03, 'plid': 0x50000B01, 'uh': {'sev': 0x00, 'flags': 0x0000},
                 'sections': [{'t': 'PS', 'ascii': '11001003'.ljust(32)}]},
+    # decoded with the shipped plug-ins (BMC SRC dispatcher -> hardware diagnostics SRC parser, user data parser, callouts)
+    'e_good_hw': {'eid': 0x50000E04, 'plid': 0x50000E04, 'creator': 'O', 'sections': [
+        {'t': 'PS', 'ascii': 'BD20E510'.ljust(32), 'callouts': [pelgen.CALLOUT_PROC]},
+        {'t': 'UD', 'comp': 0xE500, 'sub': 1, 'ver': 1, 'payload': ((1).to_bytes(4, 'big') + bytes(range(1, 13))).hex()}]},
+}
+# PELs that go through the same plug-ins and caches as the good ones; cut short they are junk that has been partly decoded
+TWINS = {
+    'bc_e5': {'eid': 0x5000AA01, 'plid': 0x5000AA01, 'creator': 'O', 'sections': [
+        {'t': 'PS', 'ascii': 'BC70E540'.ljust(32), 'callouts': [pelgen.CALLOUT_PROC]}, {'t': 'UD', 'comp': 0xE500, 'sub': 2, 'payload': '00' * 40},
+        {'t': 'MT'}]},
+    'bd_e5': {'eid': 0x5000AA02, 'plid': 0x5000AA02, 'creator': 'O', 'sections': [
+        {'t': 'PS', 'ascii': 'BD20E520'.ljust(32)}, {'t': 'UD', 'comp': 0xE500, 'sub': 1, 'payload': '0000000300'}, {'t': 'MT'}]},
+    'b_e5': {'eid': 0x5000AA03, 'plid': 0x5000AA03, 'creator': 'B', 'sections': [
+        {'t': 'PS', 'ascii': 'BC8AE510'.ljust(32), 'callouts': [pelgen.CALLOUT_FULL]}, {'t': 'UD', 'comp': 0xE500, 'sub': 1, 'payload': '01'},
+        {'t': 'ED', 'creator': 'O', 'comp': 0xE500, 'sub': 3, 'payload': b'{"a": 1}'.hex()}, {'t': 'MT'}]},
 }
 POS_NAMES = {'a': 'a_junk', 'c': 'c_junk', 'g': 'g_junk'}
 MODES = {
@@ -91,6 +106,7 @@ def plan(tier, seed):
                        'modes': ['plid_junk', 'src', 'srcx', 'lx', 'ax', 'plidx', 'srchx', 'j']})
     ch.append({'k': 'struct'})
     ch.append({'k': 'unreadable'})
+    ch.append({'k': 'twins'})
     for lo in range(0, 256, 64):
         ch.append({'k': 'bytes', 'lo': lo, 'hi': lo + 64})
     if tier == 'thorough':
@@ -113,6 +129,9 @@ def junk_bytes(j):
         return bytes([j[1]])
     if j[0] == 'raw':
         return bytes.fromhex(j[1])
+    if j[0] == 'twin':
+        b = pelgen.encode_pel(pelgen.pel_from_spec(TWINS[j[1]]))
+        return b[:len(b) - j[2]]
     return None
 
 
@@ -151,6 +170,9 @@ def rm_junk(path):
 LAST = {'junk': ''}
 
 
+pristine = clidrv.pristine
+
+
 class Env:
     """Three scratch directories: good, solo (junk only), both; plus output dirs for -j and the exclude file."""
 
@@ -168,6 +190,7 @@ class Env:
             f.write('BD8D9999\n11001003\n')
         self.good_cache = {}
         self.open_fn = None
+        pristine()
 
     def faulty_open(self, faults):
         """open() as the tool sees it: {file name: ('open'|'read', errno)} fail, everything else is the real open"""
@@ -217,6 +240,10 @@ class Env:
             out = os.path.join(self.root, 'out_' + which)
             for f in os.listdir(out):
                 os.unlink(os.path.join(out, f))
+        # every invocation of the tool is a process of its own: put the module-level state (parser caches, component-id
+        # tables, loaded plug-ins) back to what a fresh interpreter has, so that what one run leaves behind cannot mask -
+        # or fake - a difference in the next
+        pristine().restore()
         core.arm(30)
         r = clidrv.run_main(self.argv(which, mode, every), open_fn=self.open_fn)
         core.disarm()
@@ -330,7 +357,7 @@ def check(env, juncs, mode, every, case):
         if want_reported != (not empty):
             probs.append(('truncated-file-' + ('reported' if not empty else 'not-reported'),
                           'a copy of the base PEL cut after %d of %d bytes (primary SRC ends at %d) is %sreported'
-                          % (n, len(junk_base()), src_end(), '' if not empty else 'not ')))
+                          % (n, len(junk_base()), src_end(), '' if not empty else 'not ') + ('; stderr: %r' % rs.stderr[-200:] if empty else '')))
             return probs
     if mode in JSON_TWIN:
         try:
@@ -416,6 +443,14 @@ def run_chunk(chunk):
                     for mode in ALL_MODES:
                         for every in (True, False):
                             _do(res, env, [(pos, j)], mode, every, step=97)
+        elif k == 'twins':
+            # junk that shares plug-ins, caches and component ids with a good PEL and fails late (cut 3 / 30 bytes before its
+            # end), in every position, so that it is decoded before, between and after the good ones
+            for name in TWINS:
+                for cut in (3, 30):
+                    for pos in ('a', 'c', 'g'):
+                        for mode in ALL_MODES:
+                            _do(res, env, [(pos, ('twin', name, cut))], mode, True, step=97)
         elif k == 'unreadable':
             # entries that cannot be opened or read at all ("unreadable files"): the others must be reported as without them
             juncs = [('link', 'dangling'), ('link', 'loop'), ('fault', 'open', 'EACCES'), ('fault', 'open', 'EIO'),
